@@ -27,8 +27,12 @@ def b2n (b : Bool) : Nat := if b then 1 else 0
 def flagM (m : Nat) (k : Bool → Meth) : Meth := .load fun w => k (has w m)
 /-- `s.Closed()` -/
 def closedM (k : Bool → Meth) : Meth := flagM stClosed k
-/-- `if s.Closed() { return true }; return load&m != 0` (Closing, Shutdown, RecvClosed, SendClosed, WakeClosed) -/
+/-- `if s.Closed() { return true }; return load&m != 0` — Closing, Shutdown, RecvClosed, SendClosed,
+WakeClosed BEFORE the repair (two loads); kept for the `orig*` programs only -/
 def domM (m : Nat) (k : Bool → Meth) : Meth := closedM fun c => if c then k true else flagM m k
+/-- `v := load; return v&stateClosed != 0 || v&m != 0` (Closing, Shutdown, RecvClosed, SendClosed,
+WakeClosed after the repair: ONE load) -/
+def dom1M (m : Nat) (k : Bool → Meth) : Meth := .load fun v => k (has v stClosed || has v m)
 
 inductive Call where
   | prim (op : Op)
@@ -41,23 +45,23 @@ inductive Call where
   | canStop
   | setChannel (e : Bool)
   | tag
+  | origReady               -- Ready as it was before the repair: Closed() load, then a second load
+  | origTag                 -- Tag as it was before the repair: Seen() load, then Unset(stateSeen)
 
 def Call.meth : Call → Meth
   | .prim op => .rmw op fun r => .ret (b2n r)
   | .last => .load fun w => .ret (State.last w)
   | .simple m => flagM m fun b => .ret (b2n b)
-  | .dom m => domM m fun b => .ret (b2n b)
-  | .ready => closedM fun c => if c then .ret 0 else flagM stReady fun b => .ret (b2n b)
-  | .canRecv =>
-    -- if s.Closed() || s.RecvClosed() { return false }
-    closedM fun c => if c then .ret 0 else
-      domM stRecvClose fun rc => if rc then .ret 0 else flagM stCanRecv fun b => .ret (b2n b)
-  | .canStart =>
-    closedM fun c => if c then .ret 0 else
-      flagM stChannel fun ch => if ch then .ret 1 else flagM stChannelValue fun v => .ret (b2n v)
+  | .dom m => dom1M m fun b => .ret (b2n b)
+  -- v := load; return v&stateClosed == 0 && v&stateReady != 0
+  | .ready => .load fun v => .ret (b2n (!has v stClosed && has v stReady))
+  -- v := load; return v&stateClosed == 0 && v&stateRecvClose == 0 && v&stateCanRecv != 0
+  | .canRecv => .load fun v => .ret (b2n (!has v stClosed && !has v stRecvClose && has v stCanRecv))
+  -- v := load; return v&stateClosed == 0 && (v&stateChannel != 0 || v&stateChannelValue != 0)
+  | .canStart => .load fun v => .ret (b2n (!has v stClosed && (has v stChannel || has v stChannelValue)))
   | .canStop =>
-    -- if s.Closing() || !s.Channel() { return true }
-    domM stClosing fun cl => if cl then .ret 1 else
+    -- if s.Closing() || !s.Channel() { return true }     (Closing: one load)
+    dom1M stClosing fun cl => if cl then .ret 1 else
       flagM stChannel fun ch => if !ch then .ret 1 else
         .rmw (.tryUnset stChannelUpdated) fun took =>
           if took then flagM stChannelValue fun v => .ret (b2n (!v))
@@ -71,7 +75,10 @@ def Call.meth : Call → Meth
     let rhs : Meth := flagM stChannelValue fun v => if !v then .ret 0 else change
     flagM stChannel fun ch => if !ch then rhs else
       flagM stChannelProxy fun px => if !px then rhs else change
-  | .tag =>
+  -- return s.tryUnset(stateSeen)
+  | .tag => .rmw (.tryUnset stSeen) fun r => .ret (b2n r)
+  | .origReady => closedM fun c => if c then .ret 0 else flagM stReady fun b => .ret (b2n b)
+  | .origTag =>
     flagM stSeen fun sn => if !sn then .ret 0 else .rmw (.unset stSeen) fun _ => .ret 1
 
 structure AThread where
@@ -138,5 +145,7 @@ def Call.seq : Call → Nat → Nat × Nat
   | .canStop, w => ((channelCanStop w).1, b2n (channelCanStop w).2)
   | .setChannel e, w => ((State.setChannel w e).1, b2n (State.setChannel w e).2)
   | .tag, w => ((State.tag w).1, b2n (State.tag w).2)
+  | .origReady, w => (w, b2n (State.ready w))
+  | .origTag, w => ((State.tag w).1, b2n (State.tag w).2)
 
 end XMT.StateAcc
